@@ -7,7 +7,7 @@ cd /verif
 WT=/tmp/seedrepo; OUT=/tmp/seedverif
 if [ ! -d $WT ]; then git -C /repo worktree prune; git -C /repo worktree add -q --detach $WT main || exit 2; fi
 git -C $WT checkout -q --detach main && git -C $WT reset -q --hard main
-mkdir -p $OUT/evidence $OUT/replays
+mkdir -p $OUT/evidence $OUT/replays; cp /verif/known_findings.json $OUT/
 export VERIF_REPO=$WT VERIF_TARGET=/verif/target_seed VERIF_DIR=$OUT
 for p in seeded/$RD/$ID/patch*.diff; do
   [ -f "$p" ] || continue
